@@ -1220,6 +1220,9 @@ func (e *Enc) checkLoopFrame(fr *Frame, li *loopInfo, st *State) {
 		a := e.s.Fresh("lfa", "Int")
 		var allowed []string
 		for _, r := range li.frameRanges[comp] {
+			if r[0] == "fresh" {
+				continue
+			}
 			allowed = append(allowed, fmt.Sprintf("(and (<= %s %s) (< %s (+ %s %s)))", r[0], a, a, r[0], r[1]))
 		}
 		goal := implies(and(fmt.Sprintf("(< %s %s)", a, li.hdrAlloc), not(or(allowed...))), eq(sel(cur, a), sel(hv, a)))
@@ -1330,6 +1333,8 @@ func (e *Enc) havocLoop(fr *Frame, li *loopInfo, st *State) {
 					li.frameRanges[t.comp] = append(li.frameRanges[t.comp], [2]string{t.addr, "1"})
 				case "range":
 					li.frameRanges[t.comp] = append(li.frameRanges[t.comp], [2]string{t.addr, t.n})
+				case "fresh":
+					li.frameRanges[t.comp] = append(li.frameRanges[t.comp], [2]string{"fresh", ""})
 				}
 				if _, ok := ws[t.comp]; !ok {
 					ws.get(t.comp, t.sort)
@@ -1339,14 +1344,14 @@ func (e *Enc) havocLoop(fr *Frame, li *loopInfo, st *State) {
 		for comp, rs := range li.frameRanges {
 			w := ws[comp]
 			// keep "fresh" ranges found syntactically, replace the rest by the declared frame
-			var keep [][2]string
-			for _, r := range w.ranges {
-				if r[0] == "fresh" {
+			keep := [][2]string{{"fresh", ""}}
+			w.whole = false
+			for _, r := range rs {
+				if r[0] != "fresh" {
 					keep = append(keep, r)
 				}
 			}
-			w.whole = false
-			w.ranges = append(keep, rs...)
+			w.ranges = keep
 		}
 	}
 	var ks []string
